@@ -61,6 +61,16 @@ impl ConstraintAnalysis {
         self.declarations.values()
     }
 
+    /// Record that the variable occurs in a constraint (possibly as the only variable).
+    fn add_constrained(&mut self, var: &VariableName) {
+        self.constraint_map.entry(var.clone()).or_default();
+    }
+
+    /// Returns true if the variable occurs in a constraint.
+    pub fn is_constrained(&self, var: &VariableName) -> bool {
+        self.constraint_map.contains_key(var)
+    }
+
     /// Add a constraint from source to sink.
     fn add_constraint_step(&mut self, source: &VariableName, sink: &VariableName) {
         let sinks = self.constraint_map.entry(source.clone()).or_default();
@@ -88,8 +98,7 @@ impl ConstraintAnalysis {
         self.multi_step_constraint(source).iter().any(|sink| sinks.contains(sink))
     }
 
-    /// Returns the set of variables occurring in a constraint together with at
-    /// least one other variable.
+    /// Returns the set of variables occurring in a constraint.
     pub fn constrained_variables(&self) -> HashSet<VariableName> {
         self.constraint_map.keys().cloned().collect::<HashSet<_>>()
     }
@@ -117,6 +126,8 @@ pub fn run_constraint_analysis(cfg: &Cfg) -> ConstraintAnalysis {
                 }
                 ConstraintEquality { .. } | Substitution { op: AssignConstraintSignal, .. } => {
                     for source in stmt.variables_used() {
+                        // A variable is constrained also when it is the only one in the constraint.
+                        result.add_constrained(source.name());
                         for sink in stmt.variables_used() {
                             if source.name() != sink.name() {
                                 trace!(
